@@ -3,6 +3,7 @@ package main
 import (
 	"errors"
 	"fmt"
+	"runtime"
 	"sort"
 	"strings"
 	"time"
@@ -324,6 +325,9 @@ func emCells(cells []*dto.LabelPair) string {
 	return emit.L(it)
 }
 
+// label values of the write/reg/gather streams: the empty string is a value like any other
+var lvPool = []string{"1", "2", "", "1"}
+
 var cellNames = []string{"b", "d", "f", "h", "j", "l"}
 var addNames = []string{"a", "c", "e", "g", "zz", "aa", "k"}
 
@@ -340,7 +344,7 @@ func genSingleLayers(r *emit.Rng, max int, names []string, conflict []string) []
 				if len(conflict) > 0 && r.Chance(1, 12) {
 					nm = conflict[r.Intn(len(conflict))]
 				}
-				m[nm] = goodLv[r.Intn(2)]
+				m[nm] = lvPool[r.Intn(len(lvPool))]
 			}
 			ls[i] = layer{labels: m}
 		}
@@ -456,7 +460,7 @@ type collSpec struct {
 func smallLabels(r *emit.Rng, names []string, max int) prometheus.Labels {
 	m := prometheus.Labels{}
 	for k := r.Intn(max + 1); k > 0; k-- {
-		m[names[r.Intn(len(names))]] = goodLv[r.Intn(2)]
+		m[names[r.Intn(len(names))]] = lvPool[r.Intn(len(lvPool))]
 	}
 	return m
 }
@@ -479,7 +483,7 @@ func genRegCollector(r *emit.Rng) *collSpec {
 		s.kind = "histogram"
 	case 3:
 		sub := prometheus.NewRegistry()
-		for k := 1 + r.Intn(3); k > 0; k-- {
+		for k := 1 + r.Intn(5); k > 0; k-- {
 			sub.Register(prometheus.NewCounter(prometheus.CounterOpts{Name: regNames[r.Intn(len(regNames))], Help: help, ConstLabels: smallLabels(r, regLn[:2], 1)}))
 		}
 		s.c = sub
@@ -487,9 +491,9 @@ func genRegCollector(r *emit.Rng) *collSpec {
 		s.kind = "registry"
 	default:
 		lc := &listCollector{}
-		for k := r.Intn(4); k > 0; k-- {
+		for k := r.Intn(6); k > 0; k-- {
 			switch {
-			case r.Chance(1, 8):
+			case r.Chance(1, 10):
 				lc.descs = append(lc.descs, prometheus.NewInvalidDesc(userErr{1 + r.Intn(3)}))
 			case r.Chance(1, 6) && len(lc.descs) > 0:
 				lc.descs = append(lc.descs, lc.descs[r.Intn(len(lc.descs))])
@@ -605,6 +609,39 @@ func safeUnregister(reg prometheus.Registerer, c prometheus.Collector) (res int)
 	return 0
 }
 
+// settled waits until no goroutine beyond base is left (Register/Unregister start a Describe
+// goroutine that must have ended once the call is over and its channel drained).
+func settled(base int) bool {
+	for i := 0; i < 400; i++ {
+		if runtime.NumGoroutine() <= base {
+			return true
+		}
+		time.Sleep(time.Millisecond)
+	}
+	return false
+}
+
+var probeSeq int
+
+// usable checks that a Registry that was used as a collector still accepts a registration within
+// a watchdog time (a Describe left behind would keep its read lock). The probe is removed again.
+func usable(sub *prometheus.Registry) bool {
+	probeSeq++
+	p := prometheus.NewCounter(prometheus.CounterOpts{Name: fmt.Sprintf("verif_probe_%d", probeSeq), Help: "probe"})
+	done := make(chan bool, 1)
+	go func() {
+		sub.Register(p)
+		sub.Unregister(p)
+		done <- true
+	}()
+	select {
+	case <-done:
+		return true
+	case <-time.After(500 * time.Millisecond):
+		return false
+	}
+}
+
 func genRegLayers(r *emit.Rng, max int) []layer {
 	n := r.Intn(max + 1)
 	ls := make([]layer, n)
@@ -631,6 +668,9 @@ func genRegLayers(r *emit.Rng, max int) []layer {
 
 func regStream(c *cli.Ctx, r *emit.Rng, n int) error {
 	w := emit.NewWriter(c.Out, "C13", "reg")
+	time.Sleep(5 * time.Millisecond)
+	baseGoroutines := runtime.NumGoroutine()
+	var directFailures []map[string]interface{}
 	for i := 0; i < n; i++ {
 		nc := 2 + r.Intn(3)
 		colls := make([]*collSpec, nc)
@@ -647,6 +687,8 @@ func regStream(c *cli.Ctx, r *emit.Rng, n int) error {
 		}
 		reg := prometheus.NewRegistry()
 		nat := prometheus.NewRegistry()
+		settled(baseGoroutines)
+		var direct string
 		var ops, res []string
 		type done struct {
 			ci int
@@ -713,8 +755,50 @@ func regStream(c *cli.Ctx, r *emit.Rng, n int) error {
 			ops = append(ops, emit.C(0, emit.I(ci), emLayers(ls)))
 			res = append(res, emit.Tup(emit.I(wk), emit.I(exi), emit.I(nk)))
 			tags = append(tags, fmt.Sprintf("reg:register=%d", wk), fmt.Sprintf("reg:layers=%d", len(ls)))
+			if wk == 1 && len(colls[ci].descs) > 1 { // where the first refused descriptor sits
+				pos := -1
+				for di, d := range colls[ci].descs {
+					wd := d
+					for _, l := range ls {
+						wd = prometheus.VerifC13WrapDesc(wd, l.prefix, l.labels)
+					}
+					if prometheus.VerifC13Project(wd).Err != nil {
+						pos = di
+						break
+					}
+				}
+				switch {
+				case pos == 0:
+					tags = append(tags, "reg:first-invalid-desc=first")
+				case pos == len(colls[ci].descs)-1:
+					tags = append(tags, "reg:first-invalid-desc=last")
+				case pos > 0:
+					tags = append(tags, "reg:first-invalid-desc=middle")
+				}
+			}
+			// a registration, accepted or rejected, leaves nothing behind and the collector usable
+			if !settled(baseGoroutines) {
+				direct = fmt.Sprintf("after Register (result kind %d) of collector %d (%s, %d descriptors) through %d wrapper(s): %d goroutine(s) left behind",
+					wk, ci, colls[ci].kind, len(colls[ci].descs), len(ls), runtime.NumGoroutine()-baseGoroutines)
+			}
+			if sub, ok := colls[ci].c.(*prometheus.Registry); ok && wk != 0 {
+				tags = append(tags, "reg:rejected-registry-probed")
+				if !usable(sub) {
+					direct += fmt.Sprintf(" after rejected Register (kind %d) of a Registry used as collector (%d descriptors): Register on that Registry does not return (lock held)", wk, len(colls[ci].descs))
+				}
+			}
+			if direct != "" {
+				break // the state of this case is no longer trustworthy (locks may be held)
+			}
+		}
+		if direct != "" {
+			directFailures = append(directFailures, map[string]interface{}{"index": w.Len(), "what": strings.TrimSpace(direct)})
+			baseGoroutines = runtime.NumGoroutine() // leaked goroutines stay; do not blame the next case
 		}
 		w.Add(emit.Tup("2", emit.L(cit), emit.L(ops), emit.L(res)), accepted > 0 && rejected > 0, tags...)
+	}
+	if len(directFailures) > 0 {
+		w.Extra["direct_failures"] = directFailures
 	}
 	return w.Flush()
 }
@@ -813,7 +897,7 @@ func gatherStream(c *cli.Ctx, r *emit.Rng, n int) error {
 					nm := gatherAdd[r.Intn(len(gatherAdd))]
 					if !used[nm] {
 						used[nm] = true
-						m[nm] = goodLv[r.Intn(2)]
+						m[nm] = lvPool[r.Intn(len(lvPool))]
 					}
 				}
 				ls[j] = layer{labels: m}
@@ -901,7 +985,7 @@ func gatherBrokenStream(c *cli.Ctx, r *emit.Rng, n int) error {
 			} else {
 				m := prometheus.Labels{}
 				for k := 1 + r.Intn(2); k > 0; k-- {
-					m[addPool[r.Intn(len(addPool))]] = goodLv[r.Intn(2)]
+					m[addPool[r.Intn(len(addPool))]] = lvPool[r.Intn(len(lvPool))]
 				}
 				ls[j] = layer{labels: m}
 			}
